@@ -178,6 +178,116 @@ pub fn events_c10(ci: usize, case: &Value) -> Vec<Value> {
     evs
 }
 
+fn closure_of(table: &Table, m: usize) -> Vec<usize> {
+    let mut c = vec![m];
+    loop {
+        let mut grew = false;
+        for n in &table.nodes {
+            if c.contains(&n.m) && (n.k == "REF" || n.k == "VALUE") && n.r > 0 {
+                let tm = table.node(n.r).m;
+                if !c.contains(&tm) {
+                    c.push(tm);
+                    grew = true;
+                }
+            }
+        }
+        if !grew {
+            break;
+        }
+    }
+    c.sort();
+    c
+}
+
+fn module_json(k: &rsproj::RCrate, name: &str) -> String {
+    k.module(name).map(|m| serde_json::to_string(m).unwrap()).unwrap_or_else(|| "<absent>".into())
+}
+
+/// `super::mod2::{A,B}` -> ("mod2", ["A", "B"])
+fn parse_use(u: &str) -> Option<(String, Vec<String>)> {
+    let rest = u.strip_prefix("super::")?;
+    let (module, syms) = rest.split_once("::")?;
+    let syms = syms.trim_start_matches('{').trim_end_matches('}');
+    let mut v: Vec<String> = syms.split(',').map(|s| s.trim().to_string()).filter(|s| !s.is_empty()).collect();
+    v.sort();
+    Some((module.to_string(), v))
+}
+
+/// C12: the full set traced, then every module again with only its import closure and with the
+/// modules handed over in reverse; per-module blocks compared; use lines and qualified references
+pub fn events_c12(ci: usize, case: &Value) -> Vec<Value> {
+    let table = Table::from_json(case);
+    let nm = table.mods.tagdef.len();
+    let order: Vec<usize> = (1..=nm).collect();
+    let split = ci % 2 == 0;
+    let (mut evs, full) = trace_case(ci, &table, &order, split, "full");
+    if full.outcome.status != "ok" || !full.outcome.warnings.is_empty() {
+        return evs;
+    }
+    let rev: Vec<usize> = order.iter().rev().copied().collect();
+    let reversed = compile_hooked(&sources_for(&table, &rev, split));
+    // is definition d an enumeral value, or does it hold an enumeral DEFAULT? (the compiler links a
+    // bare enumeral by searching every enumerated type of every module)
+    let enum_sensitive = |d: usize| -> bool {
+        table.nodes.iter().any(|n| {
+            table.def_of(n.idx) == d && ((n.k == "VALUE" && n.vk == "ENUMERATED") || (n.k == "ENUMERATED" && n.opt == "def"))
+        })
+    };
+    let compare = |evs: &mut Vec<Value>, m: usize, other: &Compiled, ctx: String| {
+        let name = table.rust_module_name(m);
+        let skeleton = |k: &rsproj::RCrate| k.module(&name).map(|md| (md.uses.clone(), md.attrs.clone(), md.items.len()));
+        evs.push(json!({"ev": "modcmp", "case": ci, "module": table.module_name(m), "ctx": ctx, "def": "",
+                        "enum_sensitive": false, "other_ok": other.outcome.status == "ok",
+                        "same": skeleton(&full.krate) == skeleton(&other.krate)}));
+        for d in table.defs().iter().filter(|d| d.m == m) {
+            let dn = table.def_name(d.idx);
+            evs.push(json!({"ev": "modcmp", "case": ci, "module": table.module_name(m), "ctx": ctx, "def": dn,
+                            "enum_sensitive": enum_sensitive(d.idx), "other_ok": other.outcome.status == "ok",
+                            "same": items_of(&full.krate, &dn) == items_of(&other.krate, &dn)}));
+        }
+    };
+    for m in &order {
+        let name = table.rust_module_name(*m);
+        compare(&mut evs, *m, &reversed, "modules handed over in reverse order".into());
+        let cl = closure_of(&table, *m);
+        if cl.len() < nm {
+            let sub = compile_hooked(&sources_for(&table, &cl, split));
+            compare(&mut evs, *m, &sub, format!("compiled with only the modules it imports from ({} of {nm} modules)", cl.len()));
+        }
+        // IMPORTS -> use lines
+        let mut expected: Vec<(String, Vec<String>)> = vec![];
+        for (dm, sym) in table.imports(*m) {
+            let rm = table.rust_module_name(dm);
+            match expected.iter_mut().find(|(x, _)| *x == rm) {
+                Some((_, l)) => l.push(sym),
+                None => expected.push((rm, vec![sym])),
+            }
+        }
+        for e in expected.iter_mut() {
+            e.1.sort();
+        }
+        expected.sort();
+        let mut observed: Vec<(String, Vec<String>)> = full
+            .krate
+            .module(&name)
+            .map(|md| md.uses.iter().filter_map(|u| parse_use(u)).collect())
+            .unwrap_or_default();
+        observed.sort();
+        evs.push(json!({"ev": "uses", "case": ci, "module": table.module_name(*m),
+                        "expected": expected.iter().map(|(a, b)| json!({"m": a, "syms": b})).collect::<Vec<_>>(),
+                        "observed": observed.iter().map(|(a, b)| json!({"m": a, "syms": b})).collect::<Vec<_>>()}));
+    }
+    // module-qualified references resolve to super::<module>::<Type>
+    let text = &full.outcome.generated;
+    let flat: String = text.chars().filter(|c| !c.is_whitespace()).collect();
+    for n in table.nodes.iter().filter(|n| n.k == "REF" && n.qual) {
+        let t = table.node(n.r);
+        let path = format!("super::{}::{}", table.rust_module_name(t.m), table.def_name(t.idx));
+        evs.push(json!({"ev": "qualref", "case": ci, "module": table.module_name(n.m), "path": path, "found": flat.contains(&path)}));
+    }
+    evs
+}
+
 /// C10, exhaustive small inputs: an abstract input of Pipeline.tla (modules, definitions with kind
 /// and fault) is made concrete and compiled with the hooks recording
 pub fn events_abs(ci: usize, case: &Value) -> Vec<Value> {
@@ -276,6 +386,7 @@ pub fn drive(args: &[String]) -> i32 {
             .flat_map(|(i, c)| match mode.as_str() {
                 "c10" => events_c10(*i, c),
                 "abs" => events_abs(*i, c),
+                "c12" => events_c12(*i, c),
                 other => panic!("mode {other}"),
             })
             .collect()
